@@ -14,6 +14,7 @@ import Lattigo.Model.ParamsGen
     normiters <num> <den>             → steps of inverse.IntervalNormalization for log2max = num/den
     chebeval <a> <b> <x> <coeffs>     → bignum.Polynomial.Evaluate, Chebyshev basis on [a, b] (integral change of basis)
     cob slots= map= iv=<a:b|a:b>      → PolynomialVector.ChangeOfBasis: per-slot 8·scalar ; 8·constant
+    optional token pf=<oe,oe,…> (vectors): raw IsOdd/IsEven of every polynomial
     optional tokens of eval: inv=0|1 (bgv.Evaluator.ScaleInvariant), odd=0|1 even=0|1 (IsOdd/IsEven as
     set by the user), pre=<op,op,…>|- : EvaluateFromPowerBasis on a basis the caller filled with
     g<n> / g<n>l (GenPower(n, lazy=false/true)), f<n>:<level>:<scale> (fresh encryption of x^n), d<n> (delete X^n)
@@ -70,10 +71,14 @@ def evalLine (toks : List String) : Option String := do
   let x ← (kv? toks "x") >>= parseIVec?
   let mapping ← (kv? toks "map") >>= parseMap
   let polys ← parsePolys (toks.dropWhile (· != "P"))
-  let odd := flag toks "odd" true
-  let even := flag toks "even" true
+  -- pf=<oe,oe,…>: the raw (IsOdd, IsEven) flags of each polynomial of a vector; the vector's flags are `vecFlags`
+  let pflags : List (Bool × Bool) := match kv? toks "pf" with
+    | some s => (s.splitOn ",").map fun e => (e.toList.getD 0 '1' == '1', e.toList.getD 1 '1' == '1')
+    | none => []
+  let odd := if pflags.isEmpty then flag toks "odd" true else (vecFlags pflags).1
+  let even := if pflags.isEmpty then flag toks "even" true else (vecFlags pflags).2
   let env : Env := { t := t, q := q, cheb := cheb == 1, slots := slots, inv := flag toks "inv" false,
-                     odd := odd, even := even }
+                     odd := odd, even := even, pflags := pflags }
   let xin := if t = 0 then List.replicate slots 0 else x
   let (tr, st, o) ← match kv? toks "pre" with
     | none => some (run env polys mapping (lazy == 1) lvl scale tscale xin)
